@@ -17,6 +17,8 @@ import (
 	presignc "github.com/Cloud-Foundations/golib/pkg/awsutil/presignauth/caller"
 	"github.com/Cloud-Foundations/golib/pkg/log/nulllogger"
 
+	"github.com/Cloud-Foundations/keymaster/lib/certgen"
+
 	"github.com/aws/aws-sdk-go-v2/aws/arn"
 )
 
@@ -158,6 +160,20 @@ func (i *Issuer) requestHandler(w http.ResponseWriter,
 	if err != nil {
 		i.params.Logger.Println(err)
 		i.params.FailureWriter(w, r, "invalid DER", http.StatusBadRequest)
+		return nil
+	}
+	strong, err := certgen.ValidatePublicKeyStrength(pub)
+	if err != nil {
+		i.params.Logger.Println(err)
+		i.params.FailureWriter(w, r, "cannot validate public key",
+			http.StatusInternalServerError)
+		return nil
+	}
+	if !strong {
+		i.params.Logger.Println("public key is too weak or of an unsupported type")
+		i.params.FailureWriter(w, r,
+			"invalid public key, check key strength/key type",
+			http.StatusBadRequest)
 		return nil
 	}
 	template, certDER, err := i.generateRoleCert(pub, callerArn)
